@@ -93,7 +93,10 @@ pub fn prelude(specs: &[TySpec]) -> String {
 /// (text of the value expression, value form tag, negative-literal flag, is-constant-value)
 pub fn value_forms(specs: &[TySpec]) -> Vec<(String, String, bool)> {
     let mut v: Vec<(String, String, bool)> = Vec::new();
-    for (l, tag) in [("1", "lit_int"), ("-1", "lit_negint"), ("300", "lit_int_big"), ("1.5", "lit_float"), ("-1.5", "lit_negfloat"), ("2im", "lit_imag_int"), ("2.5im", "lit_imag_float"), ("-2.5im", "lit_neg_imag_float"), ("- 2.5 im", "lit_neg_imag_float_spaced"), ("true", "lit_bool"), ("\"0101\"", "lit_bits4"), ("\"1\"", "lit_bits1"), ("10ns", "lit_duration")] {
+    for (l, tag) in [("1", "lit_int"), ("-1", "lit_negint"), ("300", "lit_int_big"), ("1.5", "lit_float"), ("-1.5", "lit_negfloat"), ("2im", "lit_imag_int"), ("2.5im", "lit_imag_float"), ("-2.5im", "lit_neg_imag_float"), ("- 2.5 im", "lit_neg_imag_float_spaced"), ("true", "lit_bool"), ("\"0101\"", "lit_bits4"), ("\"1\"", "lit_bits1"), ("10ns", "lit_duration"),
+        // the same classes in their other spellings: digit separators, radices, exponents, units
+        ("\"0101_0101\"", "lit_bits8_sep"), ("\"0_1_0_1\"", "lit_bits4_sep"), ("1_0", "lit_int_sep"), ("0x1F", "lit_int_hex"), ("0b1_01", "lit_int_bin_sep"), ("0o17", "lit_int_oct"),
+        ("1_0.5", "lit_float_sep"), ("1e2", "lit_float_exp"), ("3_0im", "lit_imag_int_sep"), ("1e1im", "lit_imag_float_exp"), ("1_0 ns", "lit_duration_sep"), ("2.5us", "lit_duration_float"), ("1e1dt", "lit_duration_float_exp")] {
         v.push((l.to_string(), tag.to_string(), tag == "lit_negint"));
     }
     for t in specs {
@@ -436,13 +439,14 @@ impl Table {
         // for explicit source casts the value form *is* a cast: its own type is the value type
         // a literal reaches the graph as a literal of the class it is written in
         let written_class = match vtag.as_str() {
-            "lit_int" | "lit_negint" | "lit_int_big" => Some("Int"),
-            "lit_float" | "lit_negfloat" => Some("Float"),
-            "lit_imag_int" => Some("ImaginaryInt"),
-            "lit_imag_float" | "lit_neg_imag_float" | "lit_neg_imag_float_spaced" => Some("ImaginaryFloat"),
+            "lit_int" | "lit_negint" | "lit_int_big" | "lit_int_sep" | "lit_int_hex" | "lit_int_bin_sep" | "lit_int_oct" => Some("Int"),
+            "lit_float" | "lit_negfloat" | "lit_float_sep" | "lit_float_exp" => Some("Float"),
+            "lit_imag_int" | "lit_imag_int_sep" => Some("ImaginaryInt"),
+            "lit_imag_float" | "lit_neg_imag_float" | "lit_neg_imag_float_spaced" | "lit_imag_float_exp" => Some("ImaginaryFloat"),
             "lit_bool" => Some("Bool"),
-            "lit_bits4" | "lit_bits1" => Some("BitString"),
-            "lit_duration" => Some("TimingIntLiteral"),
+            "lit_bits4" | "lit_bits1" | "lit_bits8_sep" | "lit_bits4_sep" => Some("BitString"),
+            "lit_duration" | "lit_duration_sep" => Some("TimingIntLiteral"),
+            "lit_duration_float" | "lit_duration_float_exp" => Some("TimingFloatLiteral"),
             _ => None,
         };
         if let Some(want) = written_class {
